@@ -82,9 +82,17 @@ def encoder(ctx, r, F, T):
     }
     got = {}
     arms = []
+    def _unraw(e):
+        # Self::from_raw(v) is the struct literal Self { lvalue: v } (R-06.2 checks from_raw itself)
+        if isinstance(e, tuple):
+            if len(e) == 3 and e[0] == "call" and e[1] == "length::FuzzyHashLengthEncoding::from_raw" and len(e[2]) == 1:
+                return ("agg", "adt:length::FuzzyHashLengthEncoding::FuzzyHashLengthEncoding", (_unraw(e[2][0]),))
+            return tuple(_unraw(x) if isinstance(x, tuple) else x for x in e)
+        return e
+
     for p in rets:
         cs = [(n(d), (taken == "otherwise") if vals == [0] else taken) for (_, d, taken, vals) in p.conds]
-        ret = n(p.ret)
+        ret = _unraw(n(p.ret))
         if cs == want["zero"][0]:
             got["zero"] = ret == want["zero"][1]
         elif cs == want["too-large"][0]:
@@ -127,7 +135,21 @@ def encoder(ctx, r, F, T):
         ps = cmpmodel.ret_paths(tb[0])
         got = n(ps[0].ret) if len(ps) == 1 else None
         want = ("call", "core::option::Option::<T>::ok_or", (("call", "length::FuzzyHashLengthEncoding::new", (P(1),)), ("agg", "adt:errors::ParseError::LengthIsTooLarge", ())))
-        ctx.ob(r, ("TryFrom<u32>", "maps-none"), got == want, "TryFrom<u32> is %s" % (sym.fmt(got) if got else got), cfg=F.key, where=tb[0].where())
+        okm = got == want
+        if not okm:
+            # any other spelling: new(len) = Some(v) -> Ok(v); None -> Err(LengthIsTooLarge)
+            from .. import evalx
+            S2 = sym.Sym(tb[0])
+            okm = True
+            for res, wantv in ((("Some", "V"), ("Ok", "V")), (("None",), ("Err", ("adt", "errors::ParseError::LengthIsTooLarge")))):
+                try:
+                    gv = evalx.run(S2, F, S2.paths(), {"symbolic": True, "params": {1: "LEN"}, "no_inline": True,
+                                                        "calls": {"length::FuzzyHashLengthEncoding::new": lambda a, res=res: res}})
+                except (evalx.Unknown, evalx.Panics):
+                    gv = None
+                if gv != wantv:
+                    okm = False
+        ctx.ob(r, ("TryFrom<u32>", "maps-none"), okm, "TryFrom<u32> is %s; reference new(len).ok_or(LengthIsTooLarge)" % (sym.fmt(got) if got else got), cfg=F.key, where=tb[0].where())
 
 
 def range_rule(ctx, r, F):
